@@ -145,11 +145,12 @@ type regWorld struct {
 	types   []string
 	ids     []string
 	regd    map[string]el.Node // what was passed to the last successful RegisterNode per id
+	wrapOf  map[*recNode]*wrapNode // the outermost wrapper a node object was registered behind
 }
 
 func newRegWorld(sim *simrt.Sim, types, ids []string) *regWorld {
 	b, _ := el.NewBroker()
-	return &regWorld{broker: b, model: newBrokerModel(), h: newFanHarness(sim), types: types, ids: ids, regd: map[string]el.Node{}}
+	return &regWorld{broker: b, model: newBrokerModel(), h: newFanHarness(sim), types: types, ids: ids, regd: map[string]el.Node{}, wrapOf: map[*recNode]*wrapNode{}}
 }
 
 type mismatch struct {
@@ -188,7 +189,9 @@ func (w *regWorld) apply(op regOp) (ms []mismatch, failed bool) {
 		}
 		var reg el.Node = obj
 		for i := 0; i < op.Wrap; i++ {
-			reg = &wrapNode{inner: reg} // the Broker must reach Close through Unwrap
+			wn := &wrapNode{inner: reg} // the Broker must reach Close through Unwrap
+			reg = wn
+			w.wrapOf[obj] = wn
 		}
 		err := w.broker.RegisterNode(el.NodeID(op.ID), reg, opts...)
 		if err == nil {
@@ -322,11 +325,21 @@ func (w *regWorld) apply(op regOp) (ms []mismatch, failed bool) {
 		}
 	case "reopen":
 		before := map[*recNode]int{}
+		wbefore := map[*wrapNode]int{}
+		var failingWrap *wrapNode
 		for _, o := range w.objs {
 			before[o] = o.Reopens
 			o.ReopenErr = nil
 			if op.FailNode != "" && o.Label == op.FailNode {
 				o.ReopenErr = fmt.Errorf("injected reopen error of %s", o.Label)
+			}
+			if wn := w.wrapOf[o]; wn != nil {
+				wbefore[wn] = wn.Reopens
+				wn.ReopenErr = nil
+				if op.FailNode == "wrapper-of:"+o.Label {
+					// the registered node is the wrapper; its own Reopen fails
+					wn.ReopenErr = fmt.Errorf("injected reopen error of the wrapper of %s", o.Label)
+				}
 			}
 		}
 		rctx := ctx
@@ -351,14 +364,30 @@ func (w *regWorld) apply(op regOp) (ms []mismatch, failed bool) {
 				if o.ReopenErr != nil {
 					failing = o
 				}
+				if wn := w.wrapOf[o]; wn != nil && wn.ReopenErr != nil {
+					failingWrap = wn
+				}
 			}
 		}
-		if failing == nil {
+		if failingWrap != nil {
+			if err == nil {
+				add("reopen-error", "swallowed-wrapper", "the registered node %s (a NodeUnwrapper wrapper) failed in Reopen but Broker.Reopen returned nil", op.FailNode)
+			} else if !errors.Is(err, failingWrap.ReopenErr) && !strings.Contains(err.Error(), failingWrap.ReopenErr.Error()) {
+				add("reopen-error", "not-carried", "Broker.Reopen returned %q which does not carry the wrapper's failure %q", err, failingWrap.ReopenErr)
+			}
+		} else if failing == nil {
 			if err != nil {
 				add("reopen-error", "spurious", "Reopen returned %v although no node failed", err)
 			}
 			var missed []string
 			for o := range must {
+				if wn := w.wrapOf[o]; wn != nil {
+					// the node of the pipeline is the wrapper that was registered
+					if wn.Reopens-wbefore[wn] < 1 {
+						missed = append(missed, "wrapper-of:"+o.Label)
+					}
+					continue
+				}
 				if o.Reopens-before[o] < 1 {
 					missed = append(missed, o.Label)
 				}
@@ -376,6 +405,9 @@ func (w *regWorld) apply(op regOp) (ms []mismatch, failed bool) {
 		}
 		for _, o := range w.objs {
 			o.ReopenErr = nil
+			if wn := w.wrapOf[o]; wn != nil {
+				wn.ReopenErr = nil
+			}
 		}
 	case "send":
 		ms = append(ms, w.sendProbe(op.Typ)...)
@@ -700,6 +732,9 @@ func runRegistrySeqOps(rc *RunCtx, prop string, fixed []regOp) {
 					if !seen[ob.Label] {
 						seen[ob.Label] = true
 						cands = append(cands, ob.Label)
+						if w.wrapOf[ob] != nil {
+							cands = append(cands, "wrapper-of:"+ob.Label)
+						}
 					}
 				}
 			}
